@@ -6,7 +6,7 @@
    between invocation and return) and Ret (return with the result computed at Lin).
 
    Counting:  acquire / try_acquire / try_acquire_until(deadline) / release(n)
-   Sliding :  swait(u) / stry_wait(u) / ssignal(x)
+   Sliding :  swait(u) / stry_wait(u) / ssignal(x) / ssetmax(d)
 
    Named deviation (what the code at the pinned commit really does, disabled unless listed in
    Deviations):
@@ -101,7 +101,16 @@ LinSSignal(a) ==
     /\ Done(a, 0)
     /\ UNCHANGED <<permits, maxDiff, acquired, released>>
 
+\* set_max_difference(d): the configured distance changes (the call also resets the lower limit to the value of
+\* its second parameter, 0 here); waiters re-evaluate at the next signal
+LinSSetMax(a) ==
+    /\ op[a].st = "called" /\ op[a].kind = "ssetmax"
+    /\ maxDiff' = op[a].n /\ lower' = 0
+    /\ Done(a, 0)
+    /\ UNCHANGED <<permits, acquired, released>>
+
 Lin(a, timeOk) ==
+    \/ LinSSetMax(a)
     \/ LinAcquire(a) \/ LinTryFail(a) \/ LinTimeout(a, timeOk) \/ DevTimedFalse(a) \/ LinRelease(a)
     \/ LinSWait(a) \/ LinSTry(a) \/ LinSSignal(a)
 
@@ -117,7 +126,7 @@ CanProceed(a) ==
     /\ op[a].st = "called"
     /\ \/ op[a].kind \in AcquireKinds /\ permits >= op[a].n
        \/ op[a].kind = "swait" /\ Within(op[a].n)
-       \/ op[a].kind \in {"release", "try_acquire", "stry_wait", "ssignal"}
+       \/ op[a].kind \in {"release", "try_acquire", "stry_wait", "ssignal", "ssetmax"}
 
 QuiescentOk == \A a \in Actor : ~CanProceed(a)
 
